@@ -35,8 +35,9 @@ def new_report(tier):
         "std iterators over Range/slice/Chars are finite; str::strip_prefix and split_first_char return a strictly shorter string",
         "the invariants I1-I5 named in tables/panic_review_parse.json (reviewed, not proved)",
     ], "E1 abstract interpretation of the scanner over [lb,ub] buffered-character bounds with partitioned counters, per capacity; forward "
-       "must-analysis of the parser's token slot; dominance rules for argument preconditions; per-loop cycle/progress classification; panic-site "
-       "inventory with mechanical discharge and a per-(function, kind) review table. Linear-time bound and stack exhaustion (C11) are not decided.")
+       "must-analysis of the parser's token slot; dominance rules for argument preconditions; per-loop cycle/progress classification; E1 pass B "
+       "(character-class window) for class preconditions and must-progress of the outer scalar loops; UTF-8 boundary provenance of str slice "
+       "offsets; panic-site inventory with mechanical discharge and a per-(function, kind) review table. Linear-time bound and stack exhaustion (C11) are not decided.")
 
 
 def parse_path_functions(F):
